@@ -65,9 +65,27 @@ func (a Lin) addScaled(b Lin, k int64) Lin {
 type LinEnv struct {
 	// StableField: loads of this field through the same base may be identified within the function.
 	StableField func(fn *ssa.Function, f *types.Var) bool
+	// ForwardLoad: the value a field load is known to yield (the single dominating store of the function).
+	ForwardLoad func(load *ssa.UnOp) (ssa.Value, bool)
+}
+
+func (e *LinEnv) fwd(v ssa.Value) ssa.Value {
+	for i := 0; i < 4; i++ {
+		u, ok := v.(*ssa.UnOp)
+		if !ok || u.Op != token.MUL || e.ForwardLoad == nil {
+			return v
+		}
+		w, ok := e.ForwardLoad(u)
+		if !ok {
+			return v
+		}
+		v = w
+	}
+	return v
 }
 
 func (e *LinEnv) key(v ssa.Value) string {
+	v = e.fwd(v)
 	switch x := v.(type) {
 	case *ssa.ChangeType:
 		return e.key(x.X)
@@ -105,6 +123,7 @@ func (e *LinEnv) linOf(v ssa.Value, depth int) Lin {
 	if depth > 16 {
 		return e.opaque(v)
 	}
+	v = e.fwd(v)
 	switch x := v.(type) {
 	case *ssa.Const:
 		if n, ok := ConstInt(x); ok {
@@ -262,6 +281,7 @@ func (e *LinEnv) lbOf(v ssa.Value, at *ssa.BasicBlock, assume map[*ssa.Phi]bool,
 	if depth > 24 {
 		return NegInf
 	}
+	v = e.fwd(v)
 	tr := typeRange(v.Type())
 	best := tr.Lo
 	if iv := evalInt(v, at, 8); iv.Lo > best {
